@@ -148,6 +148,10 @@ func RandomConfig(r *kit.Rand, cell int) DocConfig {
 	}
 	if c.Version >= pdf.V1_1 && r.Chance(1, 3) {
 		id := [][]byte{r.Bytes(16), r.Bytes(16)}
+		if c.Version < pdf.V2_0 && r.Chance(1, 4) {
+			// before PDF 2.0 the two strings may have any length
+			id = [][]byte{r.Bytes(1 + r.Intn(15)), r.Bytes(1 + r.Intn(40))}
+		}
 		c.ID = id
 	}
 	c.MaxOps = 1 + r.Intn(14)
@@ -333,6 +337,10 @@ func AcceptedFilters(r *kit.Rand, v pdf.Version, maxLen int) ([]pdf.Filter, []st
 // value is modified.  A non-nil error means the Writer failed on a call it is
 // documented to accept.
 func BuildDoc(r *kit.Rand, cfg DocConfig) (*Doc, error) {
+	if cfg.ID != nil && (cfg.Version >= pdf.V2_0 || cfg.Version < pdf.V1_1) && (len(cfg.ID[0]) < 16 || len(cfg.ID[1]) < 16) {
+		// a caller changed the version after RandomConfig: PDF 2.0 wants 16 bytes
+		cfg.ID = [][]byte{append(bytes.Clone(cfg.ID[0]), make([]byte, 16)...)[:16], append(bytes.Clone(cfg.ID[1]), make([]byte, 16)...)[:16]}
+	}
 	d := &Doc{Cfg: cfg, ByRef: map[pdf.Reference]*WObj{}}
 	opt := &pdf.WriterOptions{HumanReadable: cfg.HumanReadable, UserPassword: cfg.UserPW,
 		OwnerPassword: cfg.OwnerPW, UserPermissions: cfg.Perm}
@@ -670,7 +678,10 @@ func BuildDoc(r *kit.Rand, cfg DocConfig) (*Doc, error) {
 		// optional catalog entries, as far as the version allows them
 		cat := meta.Catalog
 		if cfg.Version >= pdf.V1_4 && r.Chance(1, 2) {
-			cat.Version = Versions[r.Intn(int(cfg.Version-pdf.V1_0)+1)] // not later than the header
+			cat.Version = Versions[r.Intn(int(cfg.Version-pdf.V1_0)+1)] // not later than the header ...
+			if r.Chance(1, 3) {
+				cat.Version = kit.Pick(r, append([]pdf.Version{pdf.V2_0, pdf.V2_0, pdf.V2_0, pdf.V1_7}, Versions...)) // ... or any: a later one raises the version of the document
+			}
 			d.Cat.Version = cat.Version
 		}
 		if r.Chance(1, 3) {
